@@ -6,6 +6,7 @@ import (
 	"context"
 	"fmt"
 	"io"
+	"sort"
 	"sync"
 
 	"github.com/renbou/grpcbridge/grpcadapter"
@@ -166,9 +167,14 @@ func (s *Server) answer(f File, sent map[string]bool, bySymbol bool) [][]byte {
 		}
 	case PolWrongFile:
 		if bySymbol {
-			for _, x := range s.Files {
-				if x.Name != f.Name {
-					files = []File{x}
+			names := make([]string, 0, len(s.Files))
+			for n := range s.Files {
+				names = append(names, n)
+			}
+			sort.Strings(names) // deterministic: the first other file in name order
+			for _, n := range names {
+				if n != f.Name {
+					files = []File{s.Files[n]}
 					break
 				}
 			}
